@@ -20,7 +20,7 @@ SIZES = {'quick': [1, 2, 3, 10, 1000, 20000], 'thorough': [1, 2, 3, 10, 1000, 10
 RULE = ('case = (container-bearing hint from a dedicated grammar: sequence / set / deque / mapping / Collection / Iterable families, '
         'nested up to depth 3, optionally inside Optional/Union/fixed tuples; object shape: instrumented list/tuple/set/frozenset/deque/dict/'
         'OrderedDict/defaultdict subclasses and ABC-only Sequence/Collection/Set/Mapping implementations, plus non-collection iterables; '
-        'variant: conforming, every-item-violating, first-item-violating; draw). Each case is swept over sizes 1,2,3,10,1000,20000 '
+        'variant: conforming, every-item-violating, first-item-violating, or all containers conforming next to a violating sibling in a fixed tuple; draw). Each case is swept over sizes 1,2,3,10,1000,20000 '
         '(100000 thorough) of the top-level container (inner levels min(n,3)). Oracle: item reads (getitem calls + items handed out by '
         'iterators) and repr() calls are identical at every size and <= 1 per container level (2 per mapping level) while deciding, <= 2x '
         'that when a rejection is described; non-collection iterables are never iterated. non-trivial = nesting >= 2 (the sweep always '
@@ -126,7 +126,11 @@ def shape_for(draw, node):
 def _case(draw, tier):
     d = draw(st.sampled_from([0, 1, 1, 2, 2, 3]))
     node = draw(hints(d))
-    return {'hint': node, 'shape': draw(shape_for(node)), 'variant': draw(st.sampled_from(['ok', 'ok', 'all-bad', 'first-bad'])),
+    variant = draw(st.sampled_from(['ok', 'ok', 'all-bad', 'first-bad', 'tail-bad']))
+    if variant == 'tail-bad':
+        # fixed tuple (container(s)..., leaf) at the root
+        node = ['tupf', [node] + ([draw(hints(max(d - 1, 0)))] if draw(st.booleans()) else []) + [['cls', 'int']], 't']
+    return {'hint': node, 'shape': draw(shape_for(node)), 'variant': variant,
             'draw': draw(st.sampled_from([0, 0, 1, 7, 2 ** 32 - 1]))}
 
 
@@ -144,9 +148,16 @@ def build(shape, n, variant, top=True):
     """Realise a shape at top-level size n (inner levels min(n, 3)).  variant applies at the deepest leaves of
     the first item only ('first-bad') or of every item ('all-bad')."""
     k = shape[0]
+    if variant == 'tail-bad' and k != 'tupf':
+        variant = 'ok'
     if k == 'leaf':
         return _leaf(shape[1], n, variant in ('all-bad', 'first-bad'))
     if k == 'tupf':
+        if variant == 'tail-bad':
+            # every container conforms; the culprit is the last member of the fixed tuple, so a describing pass has to walk
+            # over the (large, conforming) containers before it
+            last = len(shape[1]) - 1
+            return tuple(build(s, n, 'first-bad' if i == last else 'ok', top) for i, s in enumerate(shape[1]))
         return tuple(build(s, n, variant if i == 0 else 'ok', top) for i, s in enumerate(shape[1]))
     m = n if top else min(n, 3)
     if k == 'map':
